@@ -2,6 +2,7 @@
 C18 — Publishing is crash-safe: index.wtml reaches the store only after all else.
 -/
 import ToastyVerif.Model.Publish
+import ToastyVerif.Gen.Plumbing
 
 namespace C18
 open Pub Gen.Publish
@@ -304,5 +305,9 @@ theorem inplace_double_fault_unsafe :
 example : reorder ["index.wtml", "b", "c"] = ["c", "b", "index.wtml"] := by decide
 example : RunOK ["a", "index.wtml", "t"] ⟨["index.wtml", "t", "a"], 2, true, false⟩ := by
   unfold RunOK; decide
+
+/-- **entry_points**: the call sites through which this property's workflows reach the modelled functions have, in the source as
+it is now, the argument plumbing the model assumes (facts re-extracted on every run, `Gen/Plumbing.lean`) -/
+theorem entry_points : Gen.Plumbing.pipeline_refresh_asks_for_index = true := by decide
 
 end C18
